@@ -3,7 +3,6 @@
 package main
 
 import (
-	"strings"
 	"context"
 	"crypto/rand"
 	"encoding/json"
@@ -11,6 +10,7 @@ import (
 	"fmt"
 	"os"
 	"path/filepath"
+	"strings"
 	"sync"
 
 	"github.com/theparanoids/crypki/proto"
@@ -36,14 +36,14 @@ type caStub struct {
 	Reqs   []*proto.SSHCertificateSigningRequest
 	Issued [][]ssh.PublicKey // per call
 	// Script per call index: "ok" (default), "err", "panic", "empty" (nil,nil,nil)
-	Script   map[int]string
-	NCerts   int      // certificates per request (default 1)
-	Comments []string // comments returned per call (nil: none)
-	ValidAt  uint64   // base time for issued certificates
-	Idempotent bool   // the same request yields byte-identical certificates (serial by position, deterministic CA signature)
-	cache    map[string]ssh.PublicKey
-	Granted  []uint64 // per certificate of one reply: validity granted instead of the requested one (0 / missing = as requested)
-	events   *[]string
+	Script     map[int]string
+	NCerts     int      // certificates per request (default 1)
+	Comments   []string // comments returned per call (nil: none)
+	ValidAt    uint64   // base time for issued certificates
+	Idempotent bool     // the same request yields byte-identical certificates (serial by position, deterministic CA signature)
+	cache      map[string]ssh.PublicKey
+	Granted    []uint64 // per certificate of one reply: validity granted instead of the requested one (0 / missing = as requested)
+	events     *[]string
 }
 
 func (s *caStub) Sign(ctx context.Context, req *proto.SSHCertificateSigningRequest) ([]ssh.PublicKey, []string, error) {
@@ -416,6 +416,9 @@ func newEnv(o envOpt) *genv {
 			phase = "auth"
 		} else if len(e.ca.Reqs) == 0 {
 			phase = "generate"
+		}
+		if fault == uagent.FaultWrongType && len(frame) > 0 && frame[0] != 13 && frame[0] != 11 {
+			fault = uagent.FaultFailure // the agent client treats any unexpected reply to a simple call as a failure; only sign and list panic on it
 		}
 		e.events = append(e.events, "agent:"+phase+":"+fault)
 	}
